@@ -18,6 +18,12 @@ import (
 // will then cause cty to attempt to unify all of the element types when given
 // a tuple.
 func MakeToFunc(wantTy cty.Type) function.Function {
+	// wantTy is a type constraint and may carry optional attribute
+	// annotations, which the convert package honours. The result of the
+	// conversion never has them, and so neither must the return type we
+	// announce (it becomes the type of the unknown result for an unknown
+	// argument).
+	retTy := wantTy.WithoutOptionalAttributesDeep()
 	return function.New(&function.Spec{
 		Description: fmt.Sprintf("Converts the given value to %s, or raises an error if that conversion is impossible.", wantTy.FriendlyName()),
 		Params: []function.Parameter{
@@ -37,8 +43,8 @@ func MakeToFunc(wantTy cty.Type) function.Function {
 		},
 		Type: func(args []cty.Value) (cty.Type, error) {
 			gotTy := args[0].Type()
-			if gotTy.Equals(wantTy) {
-				return wantTy, nil
+			if gotTy.Equals(retTy) {
+				return retTy, nil
 			}
 			conv := convert.GetConversionUnsafe(args[0].Type(), wantTy)
 			if conv == nil {
@@ -54,12 +60,12 @@ func MakeToFunc(wantTy cty.Type) function.Function {
 				}
 			}
 			// If a conversion is available then everything is fine.
-			return wantTy, nil
+			return retTy, nil
 		},
 		Impl: func(args []cty.Value, retType cty.Type) (cty.Value, error) {
 			// We didn't set "AllowUnknown" on our argument, so it is guaranteed
 			// to be known here but may still be null.
-			ret, err := convert.Convert(args[0], retType)
+			ret, err := convert.Convert(args[0], wantTy)
 			if err != nil {
 				// Because we used GetConversionUnsafe above, conversion can
 				// still potentially fail in here. For example, if the user
